@@ -62,9 +62,12 @@ class PolicyModel(Base):
     description = Column(Text())
     effect = Column(Boolean())
     context = Column(JSON())
-    subjects = relationship(PolicySubjectModel, passive_deletes=True, lazy='joined')
-    resources = relationship(PolicyResourceModel, passive_deletes=True, lazy='joined')
-    actions = relationship(PolicyActionModel, passive_deletes=True, lazy='joined')
+    subjects = relationship(PolicySubjectModel, passive_deletes=True, lazy='joined',
+                            order_by=PolicySubjectModel.id)
+    resources = relationship(PolicyResourceModel, passive_deletes=True, lazy='joined',
+                             order_by=PolicyResourceModel.id)
+    actions = relationship(PolicyActionModel, passive_deletes=True, lazy='joined',
+                           order_by=PolicyActionModel.id)
 
     @classmethod
     def from_policy(cls, policy):
